@@ -759,3 +759,69 @@ func execExotic(e *env, op *Op, out *Outcome) {
 		e.stats.Extra["c11_exotic_operands_printed"] += len(vals)
 	}
 }
+
+// ---- numeric formatting edges ------------------------------------------------------
+//
+// A systematic walk over flags x width x precision x verb x operand for
+// the combinations where the scratch buffer, the padding arithmetic or
+// the rune slicing of format.go are at their limits. No call may panic
+// and the text around the directive must come out intact.
+
+func init() { opKinds["numsweep"] = execNumSweep }
+
+var (
+	nsFlags = []string{"", "0", "+", "-", "#", " ", "+0", "#0", " 0", "+#", "-0", "+ #0"}
+	nsWid   = []string{"", "8", "70", "100", "3"}
+	nsPrec  = []string{"", ".0", ".3", ".67", ".80", ".200"}
+	nsVerbs = []string{"d", "x", "X", "o", "b", "e", "f", "g", "s", "q", "v", "c", "U", "E", "G", "O"}
+)
+
+func nsOperands() []interface{} {
+	return []interface{}{int64(math.MinInt64), int64(-1), 42, uint64(math.MaxUint64), 1e308, -1e-308, math.NaN(), math.Inf(-1),
+		"日本語テキストé", []byte("\x00\xffab\xe2\x80"), int8(-128), complex(1e100, -1e-100), true, 'x', uintptr(math.MaxUint64 >> 1),
+		redact.Safe(int64(math.MinInt64)), redact.Unsafe(uint64(math.MaxUint64)), redact.SafeInt(math.MinInt64), redact.SafeFloat(math.MaxFloat64)}
+}
+
+func execNumSweep(e *env, op *Op, out *Outcome) {
+	ops := nsOperands()
+	total := len(nsFlags) * len(nsWid) * len(nsPrec) * len(nsVerbs) * len(ops)
+	start := op.N
+	if start < 0 {
+		start = -start
+	}
+	const per = 400
+	bad := 0
+	for k := 0; k < per; k++ {
+		i := (start*per + k*7919) % total // a stride coprime with the space: every op covers a different slice
+		fl := nsFlags[i%len(nsFlags)]
+		i /= len(nsFlags)
+		wd := nsWid[i%len(nsWid)]
+		i /= len(nsWid)
+		pr := nsPrec[i%len(nsPrec)]
+		i /= len(nsPrec)
+		vb := nsVerbs[i%len(nsVerbs)]
+		i /= len(nsVerbs)
+		v := ops[i%len(ops)]
+		format := "L.%" + fl + wd + pr + vb + ".R"
+		func() {
+			defer func() {
+				if r := recover(); r != nil {
+					bad++
+					if len(out.Checks) < 3 {
+						out.Checks = append(out.Checks, fmt.Sprintf("C11/call-panicked#numsweep: Sprintf(%q, %T(%v)) panicked: %v", format, v, v, r))
+					}
+				}
+			}()
+			s := redactableStrip(string(redact.Sprintf(format, v)))
+			if !strings.HasPrefix(s, "L.") || !strings.HasSuffix(s, ".R") {
+				bad++
+				if len(out.Checks) < 3 {
+					out.Checks = append(out.Checks, fmt.Sprintf("C11/written-output-lost#numsweep: Sprintf(%q, %T(%v)) = %q: the literal text around the directive is damaged", format, v, v, clip(s)))
+				}
+			}
+		}()
+	}
+	if e.t != nil {
+		e.stats.Extra["c11_numeric_edge_combinations"] += per
+	}
+}
